@@ -2,7 +2,8 @@
    node's full enumeration under the assumptions (in the order of enum_node). *)
 From Coq Require Import List ZArith Bool Lia.
 From DD Require Import Model.Circuit Model.Query Model.Enumerate
-     Proofs.PassLemmas Proofs.Enum Proofs.Semantics Proofs.CountsA Proofs.C06Prefix.
+     Proofs.PassLemmas Proofs.Enum Proofs.Semantics Proofs.CountsA Proofs.Live Proofs.LiveCounts
+     Proofs.C06Prefix.
 Import ListNotations.
 Open Scope Z_scope.
 
@@ -10,10 +11,12 @@ Open Scope Z_scope.
 Definition EO (A : cfg) (C : circuit) (i : nat) : list cfg :=
   filter (okA A) (nth i (enums C) []).
 
-(* what enumerate_node needs from the temps: exact counts under A on every node that is not a
-   true node (true nodes are hidden / recomputed, their temp is irrelevant) *)
+(* what enumerate_node needs from the temps: exact counts under A on every REACHABLE node (the
+   root, the children of reachable nodes with a non-zero count: Proofs/Live.v) that is not a true
+   node (true nodes are hidden / recomputed, their temp is irrelevant; enumerate_node never
+   enters a branch below a node with count zero, where the temps may be stale: Proofs/ExecTemps.v) *)
 Definition temps_ok (A : cfg) (C : circuit) (ts : list Z) : Prop :=
-  forall i, (i < length C)%nat -> nth i C FalseN <> TrueN ->
+  forall i, (i < length C)%nat -> nth i C FalseN <> TrueN -> Reach C i ->
             nth i ts 0 = nth i (countsA A C) 0.
 
 (* no Or node has a true node as a child (a hidden true child would lose its configuration);
@@ -148,29 +151,32 @@ Proof.
 Qed.
 
 Definition node_spec (i : nat) : Prop :=
-  nth i C FalseN <> TrueN ->
+  nth i C FalseN <> TrueN -> Reach C i ->
   forall fuel lo hi, (i < fuel)%nat -> 0 <= lo < hi -> hi <= Z.of_nat (length (EO A C i)) ->
     enumerate_node d ts fuel lo hi i = slice lo hi (EO A C i).
 
 (* a child called with range (0, m) *)
 Lemma child_call c f m :
-  (c < length C)%nat -> node_spec c -> nth c C FalseN <> TrueN -> (c < f)%nat ->
+  (c < length C)%nat -> node_spec c -> nth c C FalseN <> TrueN -> Reach C c -> (c < f)%nat ->
   0 <= m <= nth c ts 0 ->
   enumerate_node d ts f 0 m c = firstn (Z.to_nat m) (EO A C c).
 Proof.
-  intros Hc IH Hnt Hf Hm.
+  intros Hc IH Hnt HR Hf Hm.
   assert (Hl : nth c ts 0 = Z.of_nat (length (EO A C c))) by (rewrite EO_length, Hts; auto).
   destruct (Z.eq_dec m 0) as [->|Hm0]; [now rewrite enumerate_node_hi0|].
-  rewrite IH; [apply slice_0|exact Hnt|exact Hf|lia|lia].
+  rewrite IH; [apply slice_0|exact Hnt|exact HR|exact Hf|lia|lia].
 Qed.
 
 Lemma node_step i : (i < length C)%nat ->
   (forall c, In c (children (nth i C FalseN)) -> node_spec c) -> node_spec i.
 Proof.
-  intros Hi IH Hnt fuel lo hi Hf Hr Hhi.
+  intros Hi IH Hnt HR fuel lo hi Hf Hr Hhi.
   destruct fuel as [|f]; [lia|]. rewrite enumerate_node_S.
   assert (Hti : nth i ts 0 = Z.of_nat (length (EO A C i))) by (rewrite EO_length, Hts; auto).
   assert (Hcnti : nth i ts 0 = nth i (countsA A C) 0) by (apply Hts; auto).
+  assert (HRc : forall c, In c (children (nth i C FalseN)) -> Reach C c).
+  { intros c Hc. apply (reach_child C i c HR Hi); [|exact Hc].
+    apply (count_of_countsA_nonzero C Hok A i Hi). rewrite <- Hcnti. lia. }
   assert (Hchild : forall c, In c (children (nth i C FalseN)) -> (c < i)%nat)
     by (apply (idx_ok_nth C i FalseN Hok Hi)).
   replace (hi =? 0) with false by (symmetry; apply Z.eqb_neq; lia).
